@@ -147,3 +147,145 @@ void h_class_assign(void)
     for (i = 0; i < 4; i++) if (i < n_checked) V_ASSERT(checked[i] == i, "C11: rules are tried in their compiled order");
     V_CANARY();
 }
+
+/* ======================================================= C17: a reload reaches the rule table
+ * real iauth_class_conf_changed + iauth_class_free_rules from an arbitrary previous rule vector
+ * and a section of up to two rule objects (plus a non-object child, which is not a rule), each
+ * with an arbitrary subset of the seven criteria: afterwards the compiled vector is exactly the
+ * section's objects in order with exactly their criteria (== what a fresh start compiles) -
+ * only the hit counters are carried over, by name.  conf_get_child and conf_parse_boolean are
+ * used through their contracts (config.c is not part of this unit). */
+#ifndef NRULE
+#define NRULE 2
+#endif
+#ifndef STRAY
+#define STRAY 0
+#endif
+#ifndef OLDCASE
+#define OLDCASE 0
+#endif
+struct { unsigned char mask[2]; unsigned assigned[3]; int boolres[2]; } in_sec;
+enum { K_CLASS, K_ACCOUNT, K_ADDRESS, K_USERNAME, K_HOSTNAME, K_XREPLY, K_TRUST, K_N };
+static struct { struct set_node n; struct conf_node_object o; } rule_obj[2];
+static struct { struct set_node n; struct conf_node_string s; } stray_obj;
+static struct conf_node_string kid[2][K_N];
+static const char *bool_arg[2];
+static unsigned bool_calls;
+
+static unsigned kid_index(const char *name)
+{
+    if (!strcmp(name, "class")) return K_CLASS;
+    if (!strcmp(name, "account")) return K_ACCOUNT;
+    if (!strcmp(name, "address")) return K_ADDRESS;
+    if (!strcmp(name, "username")) return K_USERNAME;
+    if (!strcmp(name, "hostname")) return K_HOSTNAME;
+    if (!strcmp(name, "xreply_ok")) return K_XREPLY;
+    if (!strcmp(name, "trust_username")) return K_TRUST;
+    return K_N;
+}
+static const char *kid_value(unsigned r, unsigned k)
+{
+    switch (k) {
+    case K_CLASS: return r ? "c1" : "c0";
+    case K_ACCOUNT: return r ? "b*" : "a*";
+    case K_ADDRESS: return r ? "::1" : "10.0.0.0/8";
+    case K_USERNAME: return "u*";
+    case K_HOSTNAME: return r ? "*.h1" : "*.h0";
+    case K_XREPLY: return r ? "sY" : "sX";
+    default: return "yes";
+    }
+}
+/* contract of conf_get_child: the child of that name if the object has one of that type */
+void *conf_get_child(struct conf_node_object *parent, const char *name, enum conf_node_type type)
+{
+    unsigned r = parent == &rule_obj[1].o, k = kid_index(name);
+    V_ASSERT(parent == &rule_obj[0].o || parent == &rule_obj[1].o, "conf_get_child contract: the parent is a rule object of the section");
+    if (k >= K_N || type != CONF_STRING) return NULL;
+    return ((in_sec.mask[r] >> k) & 1) ? (void *)&kid[r][k] : NULL;
+}
+/* contract of conf_parse_boolean: some truth value of the text (decided in the C15/C16 jobs) */
+int conf_parse_boolean(const char *value, int *success)
+{
+    unsigned k = bool_calls++;
+    if (k < 2) bool_arg[k] = value;
+    if (success) *success = 1;
+    return in_sec.boolres[k < 2 ? k : 0] != 0;
+}
+
+static char *dup_lit(const char *s) { size_t n = strlen(s) + 1; char *p = malloc(n); V_ASSUME(p != NULL); memcpy(p, s, n); return p; }
+static void mk_old(struct iauth_class_rule *r, const char *name, unsigned assigned)
+{
+    memset(r, 0, sizeof(*r));
+    r->name = dup_lit(name); r->class = dup_lit("oldclass"); r->account = dup_lit("x*"); r->xreply_ok = dup_lit("sOld");
+    r->assigned = assigned; r->trust_username = 1; r->address_bits = 128;
+}
+static const char *rule_name(unsigned r) { return r ? "rb" : "ra"; }
+
+void h_class_conf_changed(void)
+{
+    static struct conf_node_object root;
+    struct set_node *chain[3];
+    unsigned n = 0, i, k, r, old_n = 0, bk = 0;
+    static const char *old_names[3];
+    V_IN(in_sec);
+    V_ASSUME(in_sec.mask[0] < (1u << K_N) && in_sec.mask[1] < (1u << K_N));
+    memset(&root, 0, sizeof(root)); memset(rule_obj, 0, sizeof(rule_obj)); memset(&stray_obj, 0, sizeof(stray_obj)); memset(kid, 0, sizeof(kid));
+    root.base.name = "iauth_class"; root.base.type = CONF_OBJECT;
+    for (r = 0; r < 2; r++) {
+        rule_obj[r].o.base.name = (char *)rule_name(r); rule_obj[r].o.base.type = CONF_OBJECT; rule_obj[r].o.base.parent = &root;
+        for (k = 0; k < K_N; k++) { kid[r][k].base.type = CONF_STRING; kid[r][k].value = (char *)kid_value(r, k); }
+    }
+    stray_obj.s.base.name = "rab"; stray_obj.s.base.type = CONF_STRING; stray_obj.s.value = "not a rule";
+    /* section children in name order: ra < rab < rb */
+    if (NRULE >= 1) chain[n++] = &rule_obj[0].n;
+    if (STRAY) chain[n++] = &stray_obj.n;
+    if (NRULE >= 2) chain[n++] = &rule_obj[1].n;
+    for (i = 0; i < n; i++) { chain[i]->prev = i ? chain[i - 1] : NULL; chain[i]->next = i + 1 < n ? chain[i + 1] : NULL; }
+    root.contents.root = n ? chain[0] : NULL; root.contents.count = n;
+    cl_conf.root = &root;
+
+    /* the previous rule vector (what an earlier file compiled to) */
+#if OLDCASE == 0
+    cl_conf.rules.vec = NULL; cl_conf.rules.used = cl_conf.rules.size = 0;
+#else
+    cl_conf.rules.vec = malloc(3 * sizeof(struct iauth_class_rule)); V_ASSUME(cl_conf.rules.vec != NULL); cl_conf.rules.size = 3;
+#if OLDCASE == 1
+    old_names[0] = "ra"; old_n = 1;
+#elif OLDCASE == 2
+    old_names[0] = "RA"; old_names[1] = "rb"; old_n = 2;
+#elif OLDCASE == 3
+    old_names[0] = "rb"; old_n = 1;
+#else
+    old_names[0] = "qq"; old_names[1] = "rb"; old_names[2] = "zz"; old_n = 3;
+#endif
+    for (i = 0; i < old_n; i++) mk_old(&cl_conf.rules.vec[i], old_names[i], in_sec.assigned[i]);
+    cl_conf.rules.used = old_n;
+#endif
+
+    iauth_class_conf_changed(&root.base);                           /* REAL */
+
+    V_ASSERT(cl_conf.rules.used == NRULE, "C17: after a reload the compiled rules are exactly the section's rule objects - none skipped, no leftover, non-objects ignored");
+    for (r = 0; r < NRULE; r++) {
+        struct iauth_class_rule *ru = &cl_conf.rules.vec[r];
+        unsigned m = in_sec.mask[r], want_assigned = 0;
+        irc_inaddr wa; unsigned int wbits = 0;
+        memset(&wa, 0, sizeof(wa));
+        V_ASSERT(ru->name && !strcmp(ru->name, rule_name(r)), "C17: rules are compiled in section order under their names");
+        V_ASSERT(((m >> K_CLASS) & 1) ? (ru->class && !strcmp(ru->class, kid_value(r, K_CLASS))) : ru->class == NULL, "C17: a rule's class is the new file's");
+        V_ASSERT(((m >> K_ACCOUNT) & 1) ? (ru->account && !strcmp(ru->account, kid_value(r, K_ACCOUNT))) : ru->account == NULL, "C17: a rule's account criterion is the new file's");
+        V_ASSERT(((m >> K_USERNAME) & 1) ? (ru->username && !strcmp(ru->username, kid_value(r, K_USERNAME))) : ru->username == NULL, "C17: a rule's username criterion is the new file's");
+        V_ASSERT(((m >> K_HOSTNAME) & 1) ? (ru->hostname && !strcmp(ru->hostname, kid_value(r, K_HOSTNAME))) : ru->hostname == NULL, "C17: a rule's hostname criterion is the new file's");
+        V_ASSERT(((m >> K_XREPLY) & 1) ? (ru->xreply_ok && !strcmp(ru->xreply_ok, kid_value(r, K_XREPLY))) : ru->xreply_ok == NULL, "C17: a rule's xreply_ok criterion is the new file's");
+        if ((m >> K_ADDRESS) & 1) irc_pton(&wa, &wbits, kid_value(r, K_ADDRESS), 0);
+        V_ASSERT(ru->address_bits == wbits && !memcmp(&ru->address, &wa, sizeof(wa)), "C17: a rule's address criterion is the new file's (none when the file gives none)");
+        if ((m >> K_TRUST) & 1) {
+            V_ASSERT(bk < 2 && bool_arg[bk] == kid[r][K_TRUST].value && ru->trust_username == (in_sec.boolres[bk] != 0), "C17: trust_username is the truth value of the new file's text");
+            bk++;
+        } else
+            V_ASSERT(ru->trust_username == 0, "C17: trust_username is off when the new file does not give it");
+        for (i = 0; i < old_n; i++) if (!strcasecmp(old_names[i], rule_name(r))) want_assigned = in_sec.assigned[i];
+        V_ASSERT(ru->assigned == want_assigned, "C17: only the hit counter is carried over, from the old rule of the same name");
+    }
+    V_ASSERT(bool_calls == bk, "C17: nothing else is parsed as a truth value");
+    V_CANARY();
+}
